@@ -37,7 +37,9 @@ PROFILES = {
     # C10: which script a unit's rib-in-pre filter comes from: every case has a script story (F / W / Y / P around reloads)
     "C10": dict(peers=pipegen.DISTINCT_PEERS, reup=False, metrics=False, query_ops=True, reload=False, scripts=100),
     # C14: routers come back, also after the listener was re-bound; G k = how many ingress ids router k has been given
-    "C14": dict(peers=pipegen.DISTINCT_PEERS[:3], reup=True, metrics=False, query_ops=False, reload=True, reload_pc=60, ids=True),
+    # ... and, in 30 % of the cases, a router that connects a SECOND time while its first connection is open (C2 k; the old one stays
+    # open or ends later: X2 k); RL = routers listed
+    "C14": dict(peers=pipegen.DISTINCT_PEERS[:3], reup=True, metrics=False, query_ops=False, reload=True, reload_pc=60, ids=True, second=30),
 }
 
 CORPUS = {
@@ -188,6 +190,55 @@ CORPUS["C03"] = CORPUS["C03"] + [
     # ... while within the new unit a router that returns IS given its id again (find_existing_bmp_router) - and C03-1 applies again
     "J 0;H;JL 0;C 0;J 1;L;JL 0;C 0;I 0;U 0 0 0;R 0 0 0 1 1 0 -;X 0;C 0;I 0;U 0 0 0;G 0;R 0 0 0 2 1,2 0 -;Q 0 1;Q 0 2",
 ]
+
+
+# A router that connects again while its previous connection is still open: C2 k (the first connection stays open, silent; ops address
+# the new one), X2 k = the old connection ends at last, RL = routers listed.
+SECOND_CORPUS = [
+    # seeded C14-c2 (the accept loop reuses the id found only when router_states no longer holds it): the returning router keeps its id,
+    # the list shows one router - with the old connection still open ...
+    "C 0;I 0;G 0;C2 0;G 0;RL;I 0;G 0",
+    "C 0;C 1;I 0;I 1;U 0 0 0;R 0 0 0 1 1 0 -;C2 0;G 0;G 1;RL;I 0;U 0 0 0;R 0 0 0 2 2 0 -;Q 0 1;Q 0 2;C2 1;G 1;RL",
+    # ... when the NEW one ends first, and when the router then comes back a third time
+    "C 0;I 0;C2 0;I 0;G 0;X 0;RL;X2 0;RL;C 0;I 0;G 0;RL",
+    "C 0;I 0;C2 0;X 0;C 0;G 0;RL;X2 0;G 0",
+    # ... also after a re-bind of the listener
+    "C 0;I 0;L;C2 0;I 0;G 0;RL",
+    # known finding C14-old-task-removes-new-session: the OLD connection ends after the new one is up - its task withdraws the routes of
+    # the live session and takes the router off the list
+    "C 0;I 0;U 0 0 0;R 0 0 0 3 1 0 -;C2 0;I 0;U 0 0 0;R 0 0 0 4 2 0 -;Q 0 1;Q 0 2;X2 0;G 0;RL;Q 0 1;Q 0 2",
+    "C 0;C 1;I 0;I 1;U 1 0 0;R 1 0 0 1 1 0 -;C2 0;I 0;X2 0;RL;U 0 0 0;R 0 0 0 4 1 0 -;Q 0 1;G 0;X 0;RL;C 0;I 0;G 0;RL",
+]
+CORPUS["C14"] = CORPUS["C14"] + SECOND_CORPUS
+
+
+def second_story(rng, ops):
+    """A router connects a second time while its first connection is open: after some op of a connected router k, `C2 k` and the new
+    session's Initiation (often a Peer Up and a route); `G k` and `RL` right after; in 35 % of the cases the old connection ends later
+    (`X2 k`, known finding: then the list and the routes are read again), otherwise it stays open to the end of the case."""
+    out = []
+    live, done = [], False
+    for o in ops:
+        out.append(o)
+        w = o.split()
+        if w[0] == "C" and w[1] not in live:
+            live.append(w[1])
+        if w[0] == "X" and w[1] in live:
+            live.remove(w[1])
+        if not done and live and w[0] in ("I", "U", "R") and rng.chance(40):
+            done = True
+            k = rng.choice(live)
+            out += [f"C2 {k}", f"G {k}", "RL"]
+            if rng.chance(80):
+                out.append(f"I {k}")
+                if rng.chance(60):
+                    p = rng.choice([0, 5])
+                    out += [f"U {k} {p} 0", f"R {k} {p} 0 {rng.below(5)} {pipegen.plist(rng, 1, 2)} 0 -"]
+            if rng.chance(35):
+                out += [f"X2 {k}", "RL", f"Q 0 {rng.below(3) + 1}"]
+    if done:
+        out.append("RL")
+    return out
 
 
 # A bgp-tcp-in unit in the pipeline (a case with B? ops): BO k = a BGP speaker of address 127.0.0.<30+k> connects and sends OPEN (start-up
@@ -468,6 +519,8 @@ def e2e_engine(prop):
                     out.insert(rng.below(len(out) + 1), rng.choice(kinds))
             if pr.get("scripts") and rng.chance(pr["scripts"]):
                 out = script_story(rng, out)
+            if pr.get("second") and rng.chance(pr["second"]):
+                out = [o for o in second_story(rng, out) if o.split()[0] not in ("M",)]
             if pr.get("bgp") and rng.chance(pr["bgp"]):
                 story = bgp_story(rng, out, pr.get("bgp_reloads", False))
                 if not pr["query_ops"]:
@@ -566,6 +619,10 @@ def e2e_engine(prop):
             ks.append("vrib-count-edited")
         if "v:STALL" in t:
             ks.append("vrib-never-answers")
+        if "C2" in names:
+            ks.append("second-connection-while-first-open")
+            if "X2" in names:
+                ks.append("old-connection-ends-later")
         if any(x.startswith("o:") for x in t):
             ks.append("bgp-unit")
             if sum(1 for x in t if x.startswith("o:") and x != "o:-") >= 2:
